@@ -17,7 +17,17 @@ t_foo == <<102,111,111>> t_bar == <<98,97,114>> t_zz == <<122,122>>
 RC(t, s) == [t |-> t, s |-> s, cat |-> <<>>, prod |-> <<>>, svc |-> <<>>, k |-> <<>>, v |-> <<>>]
 LS(prod) == [RC("logsource", <<>>) EXCEPT !.prod = prod]
 ST(k, v) == [RC("state", <<>>) EXCEPT !.k = k, !.v = v]
-RulePool == <<LS(t_win), LS(t_lin), RC("contains_field", fB), RC("contains_field", fA), RC("is_sigma_rule", <<>>),
+AT(name, op, v) == [RC("attr", op) EXCEPT !.k = name, !.v = v]
+CI(f, v) == [RC("contains_item", <<>>) EXCEPT !.k = f, !.v = v]
+a_score == <<115,101,118,101,114,105,116,121,95,115,99,111,114,101>>   \* severity_score (custom attribute, integer 5)
+a_level == <<108,101,118,101,108>>  a_author == <<97,117,116,104,111,114>>  a_none == <<110,111,95,115,117,99,104>>
+t_high == <<104,105,103,104>> t_crit == <<99,114,105,116,105,99,97,108>> t_med == <<109,101,100,105,117,109>>
+AttrPool == <<AT(a_score, "eq", <<53>>), AT(a_score, "eq", <<54>>), AT(a_score, "ne", <<53>>), AT(a_score, "gt", <<52>>), AT(a_score, "gt", <<53>>),
+              AT(a_score, "lt", <<53>>), AT(a_score, "lte", <<53>>), AT(a_score, "gte", <<54>>),
+              AT(a_level, "gte", t_high), AT(a_level, "gte", t_crit), AT(a_level, "lt", t_med), AT(a_level, "eq", t_high),
+              AT(a_author, "eq", <<109,101>>), AT(a_author, "ne", <<109,101>>), AT(a_none, "eq", <<53>>),
+              CI(fD, <<53>>), CI(fD, <<54>>), CI(fB, t_bar), CI(fC, t_bar), CI(fA, t_bar)>>
+RulePool == AttrPool \o <<LS(t_win), LS(t_lin), RC("contains_field", fB), RC("contains_field", fA), RC("is_sigma_rule", <<>>),
               RC("is_sigma_correlation_rule", <<>>), RC("tag", t_tag), RC("tag", t_tagx), RC("applied", t_ren),
               RC("applied", t_nope), ST(t_k, t_v), ST(t_k, t_w)>>
 IC(t, all, s) == [t |-> t, all |-> all, s |-> s, k |-> <<>>, v |-> <<>>]
@@ -46,6 +56,7 @@ ItemGroups == Groups(ItemPool, 1..Len(ItemPool))
 FieldGroups == Groups(FieldPool, 1..Len(FieldPool))
 Gate(r, i, f) == [rule |-> r, item |-> i, field |-> f]
 N == IF Quick THEN 1500 ELSE 20000
+\* (pairs over the whole rule pool would be large: attribute conditions are paired among themselves and with the first six others)
 Cases == {Gate(r, Empty, Empty) : r \in RuleGroups} \cup {Gate(Empty, i, Empty) : i \in ItemGroups}
          \cup {Gate(Empty, Empty, f) : f \in FieldGroups}
          \cup {Gate(r, i, f) : r \in RandomSubset(12, RuleGroups), i \in RandomSubset(12, ItemGroups), f \in RandomSubset(10, FieldGroups)}
